@@ -15,6 +15,8 @@ ASSUME12 = [
     "values are compared after str() (the API's documented conversion); non-ASCII values are outside the quantifier",
     "every third vector is issued while another command is in flight and an earlier set_conf waits in the queue: the call's own "
     "command line (written once its turn comes) is what is decided, and the earlier call's line must be untouched; another third is "
+    "context 'refused': Tor answers the call's SETCONF with a 5xx refusal; the call fails with it and nothing further is written on its "
+    "behalf (one call, one line); "
     "the second of two identical calls on one connection (a refused call must be refused again, an accepted one written again)",
 ]
 ASSUME13 = [
@@ -135,7 +137,7 @@ def run(pid, tier, seed):
         recs = []
         for i, (a, k) in enumerate(vectors12(tier, seed)):
             # invalid keys go through every context, the others rotate
-            for ctx in (["idle", "repeat", "queued", "dup"] if not k else [["idle", "repeat", "queued", "dup"][i % 4]]):
+            for ctx in (["idle", "repeat", "queued", "dup", "refused"] if not k else [["idle", "repeat", "queued", "dup", "refused"][i % 5]]):
                 recs.append(kv.setconf_vector(a, k, ctx))
         key = lambda r: json.dumps([r["args"], r["ctx"]])
     else:
